@@ -147,6 +147,13 @@ Example C03_model_find_by_uuid_cfg_secondary :
     /\ att_input cfg_secondary st1 O [6; 1; 0; 255; 255; 0; 40; 33; 24] 23 = Some (st2, [7; 4; 0; 6; 0]).
 Proof. do 2 eexists. split; vm_compute; reflexivity. Qed.
 
+(* near miss: the first two octets (00 01) of the 128 bit service uuid of cfg_basic3 are not its uuid: Attribute Not
+   Found, and the monitor rejects that service as an answer *)
+Example C03_slice_of_128bit_uuid_is_no_match :
+  (exists s1, att_input cfg_basic3 (srv_init cfg_basic3) O [6; 1; 0; 255; 255; 0; 40; 0; 1] 64 = Some (s1, [1; 6; 1; 0; 10]))
+  /\ c03_monitor cfg_basic3 [(OpIn O [6; 1; 0; 255; 255; 0; 40; 0; 1] 64, OBytes [7; 9; 0; 15; 0])] = Some (O, ct_group_uuid).
+Proof. split; [eexists; vm_compute; reflexivity|vm_compute; reflexivity]. Qed.
+
 Example C03_discover_all_cfg_secondary :
   discover_all 6 (rbg_responder cfg_secondary 23) 1 65535 = [4; 10]
   /\ discover_all 8 (rbg_responder cfg_disc_sec_mix 23) 1 65535 = [7; 24; 31].
